@@ -330,6 +330,17 @@ func resolveUpstreamConfig(service *ServiceConfig, override string) (*UpstreamCo
 		src = &UpstreamConfig{}
 	}
 
+	// A cluster `options:` block changes only the options it states. Merge the two option structs
+	// field by field first: the merge below replaces the Options pointer wholesale, which would
+	// silently drop everything the default block said (allowed groups, skip-auth list, timeouts...).
+	if dst.RouteConfig.Options != nil && src.RouteConfig.Options != nil {
+		merged := *dst.RouteConfig.Options
+		if err := mergo.Merge(&merged, *src.RouteConfig.Options, mergo.WithOverride); err != nil {
+			return nil, err
+		}
+		src.RouteConfig.Options = &merged
+	}
+
 	err := mergo.Merge(dst, *src, mergo.WithOverride)
 	if err != nil {
 		return nil, err
